@@ -32,12 +32,34 @@ theorem kd_u32_44 (f : KdFields) (h : KdInRange f) : u32 (renderKd f) 44 = f.rsr
   have := h.rsrc3; read_kd
 theorem kd_u32_48 (f : KdFields) (h : KdInRange f) : u32 (renderKd f) 48 = f.rsrc1 := by
   have := h.rsrc1; read_kd
+theorem kd_u32_52 (f : KdFields) (h : KdInRange f) : u32 (renderKd f) 52 = f.rsrc2 := by
+  have := h.rsrc2; read_kd
 
 theorem renderKd_length (f : KdFields) : (renderKd f).length = 64 := by
   simp [renderKd, le32, le16, le64]
 
-/-- what the loader hands out for a descriptor laid out per the ABI -/
+/-- what the (repaired) loader hands out for a descriptor laid out per the ABI -/
 def kdLoaded (f : KdFields) : Meta :=
+  { lds := f.lds
+    priv := f.priv
+    kernarg := f.kernarg
+    entry := f.entry
+    rsrc3 := f.rsrc3
+    rsrc1 := f.rsrc1
+    rsrc2 := (fixRsrc2 (BitVec.ofNat 32 f.rsrc2) (decide (f.kernarg > 0))).toNat
+    wiVgpr := (f.rsrc1 % 64 + 1) * 4
+    wfSgpr := (f.rsrc1 / 64 % 16 + 1) * 8
+    enKernargPtr := decide (f.kernarg > 0) }
+
+theorem parse_renderKd (f : KdFields) (h : KdInRange f) :
+    parseV5KernelDescriptor (renderKd f) = kdLoaded f := by
+  unfold parseV5KernelDescriptor kdLoaded
+  simp only [kd_u32_0 f h, kd_u32_4 f h, kd_u32_8 f h, kd_u64_16 f h, kd_u32_44 f h, kd_u32_48 f h, kd_u32_52 f h,
+    extractBits, Meta.mk.injEq, true_and]
+  refine ⟨?_, ?_⟩ <;> omega
+
+/-- what the loader handed out before the repair (every rsrc word one slot early) -/
+def kdLoadedOld (f : KdFields) : Meta :=
   { lds := f.lds
     priv := f.priv
     kernarg := f.kernarg
@@ -49,11 +71,11 @@ def kdLoaded (f : KdFields) : Meta :=
     wfSgpr := (f.rsrc3 / 64 % 16 + 1) * 8
     enKernargPtr := decide (f.kernarg > 0) }
 
-theorem parse_renderKd (f : KdFields) (h : KdInRange f) :
-    parseV5KernelDescriptor (renderKd f) = kdLoaded f := by
-  unfold parseV5KernelDescriptor kdLoaded
+theorem parseOld_renderKd (f : KdFields) (h : KdInRange f) :
+    parseV5KernelDescriptorOld (renderKd f) = kdLoadedOld f := by
+  unfold parseV5KernelDescriptorOld kdLoadedOld
   simp only [kd_u32_0 f h, kd_u32_4 f h, kd_u32_8 f h, kd_u64_16 f h, kd_u32_40 f h, kd_u32_44 f h, kd_u32_48 f h,
-    extractBits, Meta.mk.injEq, true_and, and_true]
+    extractBits, Meta.mk.injEq, true_and]
   refine ⟨?_, ?_⟩ <;> omega
 
 /-! ## V2/V3 header (256 bytes) -/
